@@ -179,12 +179,24 @@ package engine
 //@   ensures [C01,C02] positions-are-compared-by-validity: rtype(v) == global("github.com/uber-go/gopatch/internal/goast.PosType") ==> m == boxed(mk("github.com/uber-go/gopatch/internal/engine.PosMatcher", c.fset, rvIface(v).val))
 //@   ensures-assumed c.meta == nil ==> m == compiledM(c.fset, v, c.patchStart, c.patchEnd)
 //@   ensures-assumed [C02] c.meta == nil ==> forall w RV, rr S_engine_Region {MatchOK(m, w, emptyMap(), rr)} :: MatchOK(m, w, emptyMap(), rr) == EqTree(v, w)
+// The dispatcher of the '+' side (Level 2, C03): an absent pointer is regenerated as the zero value of its
+// type, comments of the pattern are not generated, object links are regenerated as absent, positions are
+// regenerated from the recorded positions, identifiers may be metavariables, the three list kinds may
+// hold elisions, everything else is compiled structurally.
 //@ func (c *replacerCompiler) compile(v) (m)
-//@   trusted compile-side summary
+//@   requires typing: compileEnvOK()
+//@   unfold compileEnvOK() == compileEnvFacts()
+//@   decreases 8 * rvSize(v) + 7
 //@   assigns c.dots, elems(c.dots)
 //@   ensures m != nil
 //@   ensures c.dots.arr == old(c.dots.arr) || fresh(c.dots.arr)
-//@   ensures c.meta == nil ==> m == compiledR(c.fset, v, c.patchStart, c.patchEnd)
+//@   ensures [C03] compiling-is-a-function-of-the-pattern: m == cR(c.fset, c.meta, c.dotAssoc, v, c.patchStart, c.patchEnd)
+//@   unfold-post cR(c.fset, c.meta, c.dotAssoc, v, c.patchStart, c.patchEnd) == m
+//@   ensures [C03] absent-pointers-stay-absent: kind(v) == 22 && risnil(v) ==> m == boxed(mk("github.com/uber-go/gopatch/internal/engine.ZeroReplacer", rtype(v)))
+//@   ensures [C03,C17] pattern-comments-are-not-generated: !(kind(v) == 22 && risnil(v)) && rtype(v) == gt("CommentGroupPtrType") ==> m == boxed(mk("github.com/uber-go/gopatch/internal/engine.ValueReplacer", rvOf(boxed(as("*go/ast.CommentGroup", 0)))))
+//@   ensures [C03] object-links-are-not-generated: !(kind(v) == 22 && risnil(v)) && rtype(v) == gt("ObjectPtrType") ==> m == boxed(mk("github.com/uber-go/gopatch/internal/engine.ValueReplacer", rvOf(boxed(as("*go/ast.Object", 0)))))
+//@   ensures [C03] positions-come-from-the-match: rtype(v) == gt("PosType") && kind(v) != 22 ==> m == boxed(mk("github.com/uber-go/gopatch/internal/engine.PosReplacer", c.fset, rvIface(v).val))
+//@   ensures-assumed c.meta == nil ==> m == compiledR(c.fset, v, c.patchStart, c.patchEnd)
 
 // ---- elision (C04) ---------------------------------------------------------------------------------
 
@@ -527,6 +539,141 @@ package engine
 //@   ensures [C02] identifier-metavariable: rvIface(v).val != nil && lookupVar(c.meta, as("*go/ast.Ident", rvIface(v).val).Name) == const("github.com/uber-go/gopatch/internal/engine.IdentMetavarType") ==> m == boxed(mk("github.com/uber-go/gopatch/internal/engine.MetavarMatcher", c.fset, as("*go/ast.Ident", rvIface(v).val).Name, fn("github.com/uber-go/gopatch/internal/engine.isIdent")))
 //@   ensures [C02] expression-metavariable: rvIface(v).val != nil && lookupVar(c.meta, as("*go/ast.Ident", rvIface(v).val).Name) == const("github.com/uber-go/gopatch/internal/engine.ExprMetavarType") ==> m == boxed(mk("github.com/uber-go/gopatch/internal/engine.MetavarMatcher", c.fset, as("*go/ast.Ident", rvIface(v).val).Name, fn("github.com/uber-go/gopatch/internal/engine.isExpression")))
 //@   at call (*engine.matcherCompiler).compileGeneric assert [C02] undeclared-names-are-ordinary-code: lookupVar(c.meta, as("*go/ast.Ident", rvIface(v).val).Name) != const("github.com/uber-go/gopatch/internal/engine.IdentMetavarType") && lookupVar(c.meta, as("*go/ast.Ident", rvIface(v).val).Name) != const("github.com/uber-go/gopatch/internal/engine.ExprMetavarType") && arg1 == v
+
+// Structural compilation of the '+' side (Level 2, C03): by kind - pointer, interface, list and struct
+// recursively (every element / field, in order, of the pattern's own type), anything else verbatim.
+//@ func (c *replacerCompiler) compileGeneric(v) (m)
+//@   requires typing: compileEnvOK()
+//@   unfold compileEnvOK() == compileEnvFacts()
+//@   decreases 8 * rvSize(v) + 5
+//@   assigns c.dots, elems(c.dots)
+//@   ensures m != nil
+//@   ensures c.dots.arr == old(c.dots.arr) || fresh(c.dots.arr)
+//@   ensures [C03] scalars-are-generated-verbatim: kind(v) != 22 && kind(v) != 23 && kind(v) != 25 && kind(v) != 20 ==> m == boxed(mk("github.com/uber-go/gopatch/internal/engine.ValueReplacer", v))
+//@   ensures [C03] pointers: kind(v) == 22 ==> m == ite(risnil(v), boxed(mk("github.com/uber-go/gopatch/internal/engine.ZeroReplacer", rtype(v))), boxed(mk("github.com/uber-go/gopatch/internal/engine.PtrReplacer", cR(c.fset, c.meta, c.dotAssoc, relem(v), c.patchStart, c.patchEnd), rtype(v))))
+//@   ensures [C03] interfaces: kind(v) == 20 ==> m == ite(risnil(v), boxed(mk("github.com/uber-go/gopatch/internal/engine.ZeroReplacer", rtype(v))), boxed(mk("github.com/uber-go/gopatch/internal/engine.InterfaceReplacer", cR(c.fset, c.meta, c.dotAssoc, relem(v), c.patchStart, c.patchEnd), rtype(v))))
+//@   ensures [C03] lists: kind(v) == 23 && !risnil(v) ==> m.typ == dyn("github.com/uber-go/gopatch/internal/engine.SliceReplacer") && unbox(m, "S_engine_SliceReplacer").Type == rtype(v) && len(unbox(m, "S_engine_SliceReplacer").Items) == rlen(v) && forall j int {unbox(m, "S_engine_SliceReplacer").Items[j]} :: 0 <= j && j < rlen(v) ==> unbox(m, "S_engine_SliceReplacer").Items[j] == cR(c.fset, c.meta, c.dotAssoc, idx(v, j), c.patchStart, c.patchEnd)
+//@   ensures [C03] absent-lists-stay-absent: kind(v) == 23 && risnil(v) ==> m == boxed(mk("github.com/uber-go/gopatch/internal/engine.ZeroReplacer", rtype(v)))
+//@   ensures [C03] structs: kind(v) == 25 ==> m.typ == dyn("github.com/uber-go/gopatch/internal/engine.StructReplacer") && unbox(m, "S_engine_StructReplacer").Type == rtype(v) && len(unbox(m, "S_engine_StructReplacer").Fields) == numfield(rtype(v)) && forall j int {unbox(m, "S_engine_StructReplacer").Fields[j]} :: 0 <= j && j < numfield(rtype(v)) ==> unbox(m, "S_engine_StructReplacer").Fields[j] == cR(c.fset, c.meta, c.dotAssoc, fld(v, j), c.patchStart, c.patchEnd)
+
+//@ func (c *replacerCompiler) compilePtr(v) (m)
+//@   requires typing: compileEnvOK()
+//@   unfold compileEnvOK() == compileEnvFacts()
+//@   decreases 8 * rvSize(v) + 4
+//@   assigns c.dots, elems(c.dots)
+//@   ensures m != nil
+//@   ensures c.dots.arr == old(c.dots.arr) || fresh(c.dots.arr)
+//@   ensures [C03] absent-pointer: risnil(v) ==> m == boxed(mk("github.com/uber-go/gopatch/internal/engine.ZeroReplacer", rtype(v)))
+//@   ensures [C03] pointer-to-the-compiled-target: !risnil(v) ==> m == boxed(mk("github.com/uber-go/gopatch/internal/engine.PtrReplacer", cR(c.fset, c.meta, c.dotAssoc, relem(v), c.patchStart, c.patchEnd), rtype(v)))
+
+//@ func (c *replacerCompiler) compileInterface(v) (m)
+//@   requires typing: compileEnvOK()
+//@   unfold compileEnvOK() == compileEnvFacts()
+//@   decreases 8 * rvSize(v) + 4
+//@   assigns c.dots, elems(c.dots)
+//@   ensures m != nil
+//@   ensures c.dots.arr == old(c.dots.arr) || fresh(c.dots.arr)
+//@   ensures [C03] absent-interface: risnil(v) ==> m == boxed(mk("github.com/uber-go/gopatch/internal/engine.ZeroReplacer", rtype(v)))
+//@   ensures [C03] interface-holding-the-compiled-value: !risnil(v) ==> m == boxed(mk("github.com/uber-go/gopatch/internal/engine.InterfaceReplacer", cR(c.fset, c.meta, c.dotAssoc, relem(v), c.patchStart, c.patchEnd), rtype(v)))
+
+//@ func (c *replacerCompiler) compileSlice(v) (m)
+//@   requires typing: compileEnvOK()
+//@   unfold compileEnvOK() == compileEnvFacts()
+//@   decreases 8 * rvSize(v) + 4
+//@   assigns c.dots, elems(c.dots)
+//@   ensures m != nil
+//@   ensures c.dots.arr == old(c.dots.arr) || fresh(c.dots.arr)
+//@   ensures [C03] absent-list: risnil(v) ==> m == boxed(mk("github.com/uber-go/gopatch/internal/engine.ZeroReplacer", rtype(v)))
+//@   ensures [C03] one-replacer-per-element-in-order: !risnil(v) ==> m.typ == dyn("github.com/uber-go/gopatch/internal/engine.SliceReplacer") && unbox(m, "S_engine_SliceReplacer").Type == rtype(v) && len(unbox(m, "S_engine_SliceReplacer").Items) == rlen(v) && forall j int {unbox(m, "S_engine_SliceReplacer").Items[j]} :: 0 <= j && j < rlen(v) ==> unbox(m, "S_engine_SliceReplacer").Items[j] == cR(c.fset, c.meta, c.dotAssoc, idx(v, j), c.patchStart, c.patchEnd)
+//@   loop 0
+//@     invariant 0 <= i && len(items) == rlen(v) && fresh(items.arr)
+//@     invariant c.dots.arr == old(c.dots.arr) || fresh(c.dots.arr)
+//@     invariant forall j int {items[j]} :: 0 <= j && j < i ==> items[j] == cR(c.fset, c.meta, c.dotAssoc, idx(v, j), c.patchStart, c.patchEnd)
+//@     decreases rlen(v) - i
+
+//@ func (c *replacerCompiler) compileStruct(v) (m)
+//@   requires typing: compileEnvOK()
+//@   unfold compileEnvOK() == compileEnvFacts()
+//@   decreases 8 * rvSize(v) + 4
+//@   assigns c.dots, elems(c.dots)
+//@   ensures m != nil
+//@   ensures c.dots.arr == old(c.dots.arr) || fresh(c.dots.arr)
+//@   ensures [C03] one-replacer-per-field-in-order: m.typ == dyn("github.com/uber-go/gopatch/internal/engine.StructReplacer") && unbox(m, "S_engine_StructReplacer").Type == rtype(v) && len(unbox(m, "S_engine_StructReplacer").Fields) == numfield(rtype(v)) && forall j int {unbox(m, "S_engine_StructReplacer").Fields[j]} :: 0 <= j && j < numfield(rtype(v)) ==> unbox(m, "S_engine_StructReplacer").Fields[j] == cR(c.fset, c.meta, c.dotAssoc, fld(v, j), c.patchStart, c.patchEnd)
+//@   loop 0
+//@     invariant 0 <= i && len(fields) == numfield(rtype(v)) && fresh(fields.arr)
+//@     invariant c.dots.arr == old(c.dots.arr) || fresh(c.dots.arr)
+//@     invariant forall j int {fields[j]} :: 0 <= j && j < i ==> fields[j] == cR(c.fset, c.meta, c.dotAssoc, fld(v, j), c.patchStart, c.patchEnd)
+//@     decreases numfield(rtype(v)) - i
+
+// An identifier of the '+' pattern: a declared metavariable is replaced by what it captured, anything
+// else is generated verbatim.
+//@ func (c *replacerCompiler) compileIdent(v) (m)
+//@   requires typing: compileEnvOK()
+//@   unfold compileEnvOK() == compileEnvFacts()
+//@   requires typing: rvIface(v).typ == dyn("*go/ast.Ident") && rvIface(v).val != nil
+//@   decreases 8 * rvSize(v) + 6
+//@   assigns c.dots, elems(c.dots)
+//@   ensures m != nil
+//@   ensures c.dots.arr == old(c.dots.arr) || fresh(c.dots.arr)
+//@   ensures [C03] declared-metavariable: lookupVar(c.meta, as("*go/ast.Ident", rvIface(v).val).Name) != 0 ==> m == boxed(mk("github.com/uber-go/gopatch/internal/engine.MetavarReplacer", as("*go/ast.Ident", rvIface(v).val).Name))
+//@   at call (*engine.replacerCompiler).compileGeneric assert [C03] undeclared-names-are-generated-verbatim: lookupVar(c.meta, as("*go/ast.Ident", rvIface(v).val).Name) == 0 && arg1 == v
+
+//@ func (c *replacerCompiler) compilePosReplacer(v) (m)
+//@   requires typing: rvIface(v).typ == dyn("go/token.Pos")
+//@   ensures [C03] positions-are-regenerated-from-the-match: m == boxed(mk("github.com/uber-go/gopatch/internal/engine.PosReplacer", c.fset, rvIface(v).val))
+//@   assigns nothing
+
+//@ func (c *replacerCompiler) compile$1(n) (r)
+//@   requires typing: n.typ == dyn("*go/ast.ExprStmt") ==> n.val != nil
+//@   ensures [C04] statement-elision: r == (n.typ == dyn("*go/ast.ExprStmt") && as("*go/ast.ExprStmt", n.val).X.typ == dyn("*github.com/uber-go/gopatch/internal/pgo.Dots"))
+//@   assigns nothing
+//@ func (c *replacerCompiler) compile$2(n) (r)
+//@   ensures [C04] expression-elision: r == (n.typ == dyn("*github.com/uber-go/gopatch/internal/pgo.Dots"))
+//@   assigns nothing
+//@ func (c *replacerCompiler) compile$3(n) (r)
+//@   requires typing: n.typ == dyn("*go/ast.Field") ==> n.val != nil
+//@   ensures [C04] field-elision: r == (n.typ == dyn("*go/ast.Field") && as("*go/ast.Field", n.val).Type.typ == dyn("*github.com/uber-go/gopatch/internal/pgo.Dots"))
+//@   assigns nothing
+
+// Lists of the '+' side that may contain elisions (C04): every element that is not an elision is compiled,
+// in order; each elision closes a section and is recorded for association with a '-' elision.
+//@ func (c *replacerCompiler) compileSliceDots(items, isDots) (m)
+//@   requires typing: compileEnvOK()
+//@   unfold compileEnvOK() == compileEnvFacts()
+//@   requires typing: isDots != nil
+//@   decreases 8 * rvSize(items) + 6
+//@   assigns c.dots, elems(c.dots)
+//@   ensures m != nil
+//@   ensures c.dots.arr == old(c.dots.arr) || fresh(c.dots.arr)
+//@   unfold dotsBefore(isDots, items, 0) == 0
+//@   ensures [C04] absent-list: risnil(items) ==> m == boxed(mk("github.com/uber-go/gopatch/internal/engine.ZeroReplacer", rtype(items)))
+//@   ensures [C04] without-elision-an-ordinary-list: !risnil(items) && dotsBefore(isDots, items, rlen(items)) == 0 ==> m.typ == dyn("github.com/uber-go/gopatch/internal/engine.SliceReplacer") && unbox(m, "S_engine_SliceReplacer").Type == rtype(items) && len(unbox(m, "S_engine_SliceReplacer").Items) == rlen(items) && forall j int {unbox(m, "S_engine_SliceReplacer").Items[j]} :: 0 <= j && j < rlen(items) ==> unbox(m, "S_engine_SliceReplacer").Items[j] == cR(c.fset, c.meta, c.dotAssoc, idx(items, j), c.patchStart, c.patchEnd)
+//@   ensures [C04] one-section-more-than-elisions: !risnil(items) && dotsBefore(isDots, items, rlen(items)) > 0 ==> m.typ == dyn("github.com/uber-go/gopatch/internal/engine.SliceDotsReplacer") && unbox(m, "S_engine_SliceDotsReplacer").Type == rtype(items) && len(unbox(m, "S_engine_SliceDotsReplacer").Sections) == dotsBefore(isDots, items, rlen(items)) + 1 && len(unbox(m, "S_engine_SliceDotsReplacer").Dots) == dotsBefore(isDots, items, rlen(items)) && unbox(m, "S_engine_SliceDotsReplacer").dotAssoc == c.dotAssoc
+//@   loop 0
+//@     unfold dotsBefore(isDots, items, i + 1) == dotsBefore(isDots, items, i) + ite(implements(rvIface(idx(items, i)), "go/ast.Node") && isDotsElem(isDots, rvIface(idx(items, i))), 1, 0)
+//@     invariant 0 <= i && i <= rlen(items)
+//@     invariant c.dots.arr == old(c.dots.arr) || fresh(c.dots.arr)
+//@     invariant sections.arr == 0 || fresh(sections.arr)
+//@     invariant current.arr == 0 || fresh(current.arr)
+//@     invariant dots.arr == 0 || fresh(dots.arr)
+//@     invariant [C04] len(sections) == dotsBefore(isDots, items, i) && len(dots) == dotsBefore(isDots, items, i) && dotsBefore(isDots, items, i) >= 0
+//@     invariant [C04] the-open-section-holds-the-elements-since-the-last-elision: len(current) <= i && forall j int {current[j]} :: 0 <= j && j < len(current) ==> current[j] == cR(c.fset, c.meta, c.dotAssoc, idx(items, i - len(current) + j), c.patchStart, c.patchEnd)
+//@     invariant [C04] dotsBefore(isDots, items, i) == 0 ==> len(current) == i
+//@     decreases rlen(items) - i
+
+//@ func (c *replacerCompiler) compileForStmt(v) (m)
+//@   requires typing: compileEnvOK()
+//@   unfold compileEnvOK() == compileEnvFacts()
+//@   requires typing: rvIface(v).typ == dyn("*go/ast.ForStmt") && rvIface(v).val != nil
+//@   requires typing: rvSize(rvOf(boxed(as("*go/ast.ForStmt", rvIface(v).val).Body))) < rvSize(v)
+//@   decreases 8 * rvSize(v) + 6
+//@   assigns c.dots, elems(c.dots)
+//@   ensures m != nil
+//@   ensures c.dots.arr == old(c.dots.arr) || fresh(c.dots.arr)
+//@   ensures [C04] for-elision-replacer-holds-the-compiled-body: as("*go/ast.ForStmt", rvIface(v).val).Cond.typ == dyn("*github.com/uber-go/gopatch/internal/pgo.Dots") && as("*go/ast.ForStmt", rvIface(v).val).Init == nil && as("*go/ast.ForStmt", rvIface(v).val).Post == nil ==> m == boxed(mk("github.com/uber-go/gopatch/internal/engine.ForDotsReplacer", nodePos(as("*go/ast.ForStmt", rvIface(v).val).Cond), cR(c.fset, c.meta, c.dotAssoc, rvOf(boxed(as("*go/ast.ForStmt", rvIface(v).val).Body)), c.patchStart, c.patchEnd), c.dotAssoc))
+//@   at call (*engine.replacerCompiler).compileGeneric assert [C04] only-a-bare-elision-header-is-special: arg1 == v && (as("*go/ast.ForStmt", rvIface(v).val).Cond.typ != dyn("*github.com/uber-go/gopatch/internal/pgo.Dots") || as("*go/ast.ForStmt", rvIface(v).val).Init != nil || as("*go/ast.ForStmt", rvIface(v).val).Post != nil)
+//@   at call (*engine.replacerCompiler).compile assert [C04] the-for-elision-needs-a-bare-elision-header: as("*go/ast.ForStmt", rvIface(v).val).Cond.typ == dyn("*github.com/uber-go/gopatch/internal/pgo.Dots") && as("*go/ast.ForStmt", rvIface(v).val).Init == nil && as("*go/ast.ForStmt", rvIface(v).val).Post == nil
+//@   at call (*engine.replacerCompiler).compile assert [C04] the-body-is-compiled: arg1 == rvOf(boxed(as("*go/ast.ForStmt", rvIface(v).val).Body))
 
 // ---- replacers (C03, C05, C08) ------------------------------------------------------------------------
 //
